@@ -123,6 +123,8 @@ def evaluate(case, ctx):
     if ref.exit != 0:
         raise engine.Discard("reference-run-failed")
     viols, allrec, named = judge(case, ref, "serial")
+    if any(v["clause"] == "unreadable-file" and "gzip" not in v["msg"] and "container" not in v["msg"] for v in viols):
+        raise engine.Discard("serial-output-malformed")  # per-read defect, not this property
     flags = C.option_signature(case)
     untrimmed_opt = any(f in flags for f in ("--discard-untrimmed", "--untrimmed-output", "--discard-trimmed"))
     if not untrimmed_opt or (not case["paired"] and "--discard-untrimmed" in flags):
